@@ -72,14 +72,23 @@ def iter_cases(task):
         k = 0
         for label in labels:
             for r in range(reps):
-                cs = allconfs if confs == "all" else rnd.sample(allconfs, min(confs, len(allconfs)))
+                cs = list(allconfs) if confs == "all" else rnd.sample(allconfs, min(confs, len(allconfs)))
+                # one member is requested on all its configurations consecutively (sparse -> dense or the reverse),
+                # in a different input format each time; every second round draws a fresh member per configuration
+                cs.sort(key=lambda c: len(oconn.EDGES[(n, c)]), reverse=bool(r % 2))
+                shared = None
                 for c in cs:
                     k += 1
                     plain = bool(plain_every) and (k % plain_every == 0)
-                    m = ws.member(label, n, rnd, orb[label], plain_graph=plain)
-                    if not plain:
-                        m["gens"] = ws.hostile_presentation(m["gens"], n, rnd, HOSTILE[k % len(HOSTILE)])
-                    m.update(conn=c, fmt=("graph" if plain else FMT_CYCLE[k % len(FMT_CYCLE)]),
+                    if plain or shared is None or (r % 2 == 1 and k % 2 == 0):
+                        m = ws.member(label, n, rnd, orb[label], plain_graph=plain)
+                        if not plain:
+                            m["gens"] = ws.hostile_presentation(m["gens"], n, rnd, HOSTILE[k % len(HOSTILE)])
+                            shared = m
+                    else:
+                        m = dict(shared)
+                    m = dict(m)
+                    m.update(conn=c, fmt=("graph" if m.get("graph_state") else FMT_CYCLE[k % len(FMT_CYCLE)]),
                              stratum="member%d" % n, label=label)
                     yield m
     else:
